@@ -60,7 +60,7 @@ def strategy_(draw, tier):
 
     rnd = random.Random(draw(st.integers(0, 2**30)))
     start = draw(st.sampled_from([0, 0, 6, 95, 996]))
-    b = gen_graph._Builder(draw, rnd, [draw(st.sampled_from(["s", "s", ""])), draw(st.sampled_from(["utg", "n", "s0"]))], start, 9)
+    b = gen_graph._Builder(draw, rnd, [draw(st.sampled_from(["s", "s", "", "b"])), draw(st.sampled_from(["utg", "n", "s0", "b"]))], start, 9)
     b.cycles = draw(st.booleans())
     nchrom = draw(st.integers(1, 3))
     names = draw(st.permutations(["chr1", "chr2", "chrX", "chr10_alt"]))[:nchrom]
